@@ -119,6 +119,10 @@ def simp_case(args):
             break
         sa, sb, sia, sib = redex(a, b, ia, ib, who)
         ga, gb = generalise(sa, sb, sia, sib) if who.split(".")[-1].startswith("_reduce") else (sa, sb)
+        if set(spec.variables(gb)) - set(spec.variables(ga)) and not (set(spec.variables(sb)) - set(spec.variables(sa))):
+            # the reducer took a generalised grandchild apart (a pattern deeper than direct children): the
+            # generalisation is not an instance of the rule, judge the step as it is
+            ga, gb = sa, sb
         nv = len(spec.variables(ga))
         problems, n = compare_trees(ga, gb, FINE_REGIONS if (tier != "quick" and nv <= 2) else SIGN_REGIONS)
         if (ga, gb) != (a, b):
@@ -133,6 +137,84 @@ def simp_case(args):
         if tr["end"] is not None and tr["end"][0] != seq[-1][1]:
             out["pipeline_mismatch"] = spec.show(tr["end"][0]) if tr["end"][0] else None
     return out
+
+
+def partially_reduced_inputs(model, inputs):
+    """Forms the normal-form pass may receive when the rewriter gives up: NOT fully reduced -- any rule
+    input with an n-ary root, plus sums/products that still carry several constants."""
+    out = [(t, l) for (t, l) in inputs if t[0] in spec.NARY and not l.startswith("random(")]
+    v, w = ("Variable", "v"), ("Variable", "w")
+    for k in spec.NARY:
+        if k not in model.classes:
+            continue
+        for kids in ([("Constant", -2), ("Constant", 5), v], [v, ("Constant", 3), ("Constant", -1)],
+                     [("Constant", -2), v, ("Constant", -3)], [("Constant", 2), ("Constant", -3)],
+                     [("Negation", v), ("Constant", -2), ("Constant", 4), w],
+                     [("Reciprocal", v), ("Constant", -2), ("Constant", 0.5), w],
+                     [("Constant", 0), ("Constant", -1), v], [v, v, ("Constant", -1), ("Constant", -1)]):
+            out.append(((k, kids), f"{k}<several constants>"))
+    return out
+
+
+def normal_form_case(args):
+    """Worker: the normal-form pass applied directly to a form that is not fully reduced."""
+    (tree,) = args
+    from ..harness import build, run_paths, exc_name
+    from ..derivengine import obj_to_tree
+    model = load_model()
+
+    def thunk(it):
+        e = build(it, tree, {})
+        if model.resolve_method(e.cls, "_normalize_fully_reduced") is None:
+            return None
+        return obj_to_tree(it, it.call(it.getattr(e, "_normalize_fully_reduced"), [], {}))
+    outs = run_paths(model, thunk, max_paths=2, max_steps=4000000, generic_only=True)
+    o = outs[0]
+    if o["kind"] == "raise":
+        return {"kind": "raise", "exc": exc_name(o["exc"])}
+    if o["kind"] != "return":
+        return {"kind": "unsupported", "msg": o["msg"]}
+    if o["value"] is None:
+        return {"kind": "absent"}
+    problems, n = compare_trees(tree, o["value"], SIGN_REGIONS)
+    return {"kind": "ok", "to": spec.show(o["value"]), "problems": problems, "n": n}
+
+
+def check_normal_form_pass(rep, model, inputs):
+    cases = partially_reduced_inputs(model, inputs)
+    results = pmap(normal_form_case, [(t,) for (t, _l) in cases], chunksize=8)
+    per = {}
+    for (tree, label), r in zip(cases, results):
+        construct = f"{tree[0]}._normalize_fully_reduced"
+        d = per.setdefault(construct, [0, 0])
+        d[0] += 1
+        if r["kind"] == "absent":
+            rep.unknown("C08.normal-form-pass", construct, "", "anchor missing: no _normalize_fully_reduced method")
+        elif r["kind"] == "unsupported":
+            rep.unknown("C08.normal-form-pass", construct, "", f"{spec.show(tree)}: {r['msg']}")
+        elif r["kind"] == "raise":
+            if r["exc"] != "OverflowError":
+                rep.violation("C08.normal-form-pass", construct, "",
+                              f"the normal-form pass applied to the partially reduced {spec.show(tree)} raised {r['exc']}",
+                              witness_class=f"raised {r['exc']}")
+        else:
+            bad = [p for p in r["problems"] if p["kind"] in ("domain-shrinks", "value-differs", "new-variable")]
+            unk = [p for p in r["problems"] if p["kind"] == "unknown"]
+            if bad:
+                p = bad[0]
+                fi = model.resolve_method(model.cls(tree[0]), "_normalize_fully_reduced")
+                rep.violation("C08.normal-form-pass", construct, fi.where if fi else "",
+                              f"the normal-form pass turns the partially reduced {spec.show(tree)} (as handed over when "
+                              f"the rewriter gives up) into {r['to']}: {p['kind']} at {{{p.get('at', '')}}} {p['detail']}",
+                              witness=r, witness_class=f"{p['kind']} {label}")
+            elif unk:
+                rep.unknown("C08.normal-form-pass", construct, "", f"{spec.show(tree)} -> {r['to']}: {unk[0]['detail']}")
+            else:
+                d[1] += 1
+    for construct, (n, good) in sorted(per.items()):
+        if n == good:
+            rep.ok("C08.normal-form-pass", construct, "", f"{n} not fully reduced forms (every n-ary rule input; sums and "
+                   f"products still carrying several constants): the pass alone preserves domain and value", cases=n)
 
 
 def check(rep):
@@ -207,6 +289,7 @@ def check(rep):
         if n == good:
             rep.ok("C08.rule", label, "", f"{n} rule inputs: every step and the end result are defined wherever "
                    f"the input is, with the same value (all sign regions)", cases=n)
+    check_normal_form_pass(rep, model, inputs)
     # every reducer listed by a class must have fired on some input (otherwise its soundness was not examined)
     listed = []
     for ci in model.concrete_expression_classes():
